@@ -78,7 +78,41 @@ def all_lines(tier):
     return out
 
 
+def alias_program():
+    """eligible instructions whose register operands are written through alias constants, x0 and sp included: an alias is
+    the register it names, in every operand position"""
+    out = [L('Z0 = 0', 'const', 'Z0', extra=0), L('SPR = 2', 'const', 'SPR', extra=2), L('W8 = 8', 'const', 'W8', extra=8),
+           L('RAL = 1', 'const', 'RAL', extra=1)]
+    nm = {0: 'Z0', 2: 'SPR', 8: 'W8', 1: 'RAL'}
+
+    def add(name, ops, alias_at):
+        toks = [('x%d' % v if k == 'r' else str(v)) for k, v in ops]
+        for i in alias_at:
+            toks[i] = nm[ops[i][1]]
+        out.append(L('    %s %s' % (name, ', '.join(toks)), 'instr', name, ops))
+
+    add('addi', [('r', 5), ('r', 0), ('i', 5)], [1])          # c.li
+    add('addi', [('r', 8), ('r', 0), ('i', -3)], [0, 1])
+    add('add', [('r', 5), ('r', 0), ('r', 6)], [1])           # c.mv
+    add('add', [('r', 8), ('r', 8), ('r', 9)], [0, 1])        # c.add
+    add('beq', [('r', 8), ('r', 0), ('i', 8)], [1])           # c.beqz
+    add('bne', [('r', 8), ('r', 0), ('i', -8)], [0, 1])
+    add('jal', [('r', 0), ('i', 16)], [0])                    # c.j
+    add('jal', [('r', 1), ('i', 16)], [0])                    # c.jal
+    add('jalr', [('r', 0), ('r', 1), ('i', 0)], [0, 1])       # c.jr
+    add('jalr', [('r', 1), ('r', 5), ('i', 0)], [0])          # c.jalr
+    add('addi', [('r', 2), ('r', 2), ('i', 32)], [0, 1])      # c.addi16sp
+    add('addi', [('r', 8), ('r', 2), ('i', 16)], [0, 1])      # c.addi4spn
+    add('lw', [('r', 8), ('r', 2), ('i', 8)], [0, 1])         # c.lwsp
+    add('sw', [('r', 2), ('r', 8), ('i', 8)], [0, 1])         # c.swsp
+    add('sub', [('r', 8), ('r', 8), ('r', 9)], [0, 1])
+    add('slli', [('r', 8), ('r', 8), ('r', 3)], [0, 1])
+    add('lui', [('r', 8), ('i', 5)], [0])
+    return out
+
+
 def programs(tier, per=400):
     lines = all_lines(tier)
     for i in range(0, len(lines), per):
         yield lines[i:i + per]
+    yield alias_program()
